@@ -60,6 +60,10 @@ CHECKS = {
  "C17": ("exploration", "capacity predicate Fits in C3DFormat.tla (used by the Reload action of every I/O slice) + EzLimits.tla decision rule model-checked by TLC; boundary driver events validated by TLC against EzLimitsTrace.tla",
          "For every capacity limit L of the format (description 255, names 127, dimension entry 255, 7 dimensions, 255 points / channels / strings, 32767 frames, 16-bit integer extremes, 65535-byte record, 255 parameter blocks) content at L-1, L, L+1 and far beyond, alone and in pairs, is built through the public API, saved and loaded; TLC validates each observation against the rule: within the limits save and load succeed with the same content, beyond them the save throws or the file still loads to the same content.",
          "content equality by a Python mirror of C3DFormat.Content; group descriptions and first-frame numbers are not settable through the API (files only)", "6/C17"),
+
+ "C19": ("model_checking", "the specification's transitions (MC_IO, MC_Format bit patterns; thorough: layouts, params, look-ups) with expected states / exception classes / saved bytes replayed in six builds {-O0,-O2,-O3} x {static, shared}; plus byte-identical event streams on a damaged-file / print / vendor-file corpus",
+         "Every action of the specification is a function of state and arguments, so a configuration-dependent result cannot be a behaviour of the specification in two builds at once: each of the six builds must follow the specification on every transition of the slices (values as bit patterns, exception classes, saved bytes), and a second corpus without expected values (loads of damaged files, print() output hash, vendor files load/save/load) must yield byte-identical event streams in all builds.",
+         "one compiler family (g++ 12); the six builds share the harness source", "6/C19"),
 }
 NA = {
 }
